@@ -43,6 +43,9 @@ def search_second_scan(seed, want, limit):
 # committed corpus: keys (hex) for which the second scan supplies 3 and 4 digits (probability 2e-5 / 1.5e-7 per random key);
 # found once with search_second_scan and re-validated by TLC on every run
 HARD_KEYS = {3: 'c7aec43b2d9d00679f41e98dce6c2ca3', 4: 'bbc7149f8dfd1e8b6143fda5742e9be9'}
+# keys for which the substituted letters include an 'a' (which maps to the digit 0), one per number of substituted digits
+HARD_KEYS_A = ['cb0ac2249e718b9a4509fca984e80521', '26a1ced8ca857955107194d1d40d5426', 'a9527c7fe32612b4f200a420bbf3bcd8',
+               '008a408bdfb201858a809703a6c8f641']
 
 
 def _drive(args):
@@ -115,6 +118,10 @@ def run(rep, wd, tier, seed):
             found[want] = hit
     for want, khex in HARD_KEYS.items():
         found[want] = ('1234', '4000123456789010', 1, bytes.fromhex(khex))
+    extra = [('1234', '4000123456789010', 1, bytes.fromhex(kh)) for kh in HARD_KEYS_A]
+    for (pin, pan, idx, k) in extra:
+        kind, out_ = call(lambda: pinblock.calculate_pvv(pin, k.hex(), idx, pan))
+        ev.append(pev('pvv', pin, pan, idx=idx, key=k, kind=kind, out=pinc.safe_digits(out_) if kind == 'ok' else ()))
     for want, (pin, pan, idx, k) in sorted(found.items()):
         kind, out_ = call(lambda: pinblock.calculate_pvv(pin, k.hex(), idx, pan))
         e = pev('pvv', pin, pan, idx=idx, key=k, kind=kind, out=pinc.safe_digits(out_) if kind == 'ok' else ())
